@@ -3,20 +3,20 @@ from specs.common import run, ASSUME_COMMON
 SPEC = {
     "runs": [
         # scripted observable callbacks against the metrics reference model M
-        run("e1-scripted-callbacks", "c17_observables", "asan", 4000, 100000, need_lib=True),
+        run("e1-scripted-callbacks", "c17_observables", "asan", 4000, 300000, need_lib=True),
         # AddCallback / RemoveCallback / instrument destruction racing Collect, TSan + perturbation shim
-        run("e2-callback-churn-vs-collect", "c17_observables", "tsan", 300, 6000, need_lib=True,
+        run("e2-callback-churn-vs-collect", "c17_observables", "tsan", 300, 20000, need_lib=True,
             params={"mode": "race"}),
         # synchronous Gauge exists in ABI v2 only
-        run("e1-sync-gauge-abi2", "c17_observables", "asan-abi2", 0, 30000, need_lib=True, params={"mode": "gauge"},
+        run("e1-sync-gauge-abi2", "c17_observables", "asan-abi2", 0, 100000, need_lib=True, params={"mode": "gauge"},
             tiers=("thorough",)),
     ],
     "floors": {
         "quick": {"hist_removal_between_collections": 300, "hist_readers_mixed_temporality": 300,
                   "hist_non_monotone_script": 200, "race_runs_removal_interleaved_with_invocations": 50},
-        "thorough": {"hist_removal_between_collections": 5000, "hist_readers_mixed_temporality": 5000,
-                     "hist_non_monotone_script": 5000, "race_runs_removal_interleaved_with_invocations": 1000,
-                     "sync_gauge_points_checked_fresh": 50000},
+        "thorough": {"hist_removal_between_collections": 15000, "hist_readers_mixed_temporality": 15000,
+                     "hist_non_monotone_script": 15000, "race_runs_removal_interleaved_with_invocations": 3000,
+                     "sync_gauge_points_checked_fresh": 100000},
     },
     "engine": "E1 model-oracle",
     "engines_used": ("E1 model-oracle", "E2 history"),
